@@ -247,6 +247,123 @@ def describe_env(env):
     return ", ".join(parts)[:300]
 
 
+def flat_and(x, out):
+    if x[0] == "bin" and x[1] == "BitAnd" and x[4] == "bool":
+        flat_and(x[2], out)
+        flat_and(x[3], out)
+    else:
+        out.append(x)
+    return out
+
+
+def decide_site(ctx, o, fixed_env=None):
+    """Exact decision of one panic site for *arbitrary* values of the atoms it mentions, by one of:
+      - the bound prover on the asserted condition alone;
+      - (overflow of an addition) the two operands never have a one in the same bit position;
+      - the site's failure condition `path ∧ ¬asserted` depends on at most 20 input bits: all assignments enumerated;
+      - a conjunct of the path fixes the population count of an integer atom to 1 or 2: all such values enumerated.
+    -> (True, how) | (False, failing binding) | (None, why undecided)."""
+    from ..evals import prove_obligation, BitVec, b_deps, b_and
+    from ..pdb import INT_BITS
+    pdb = ctx.pdb
+    fixed_env = fixed_env or {}
+    if o.cond[0] == "c":
+        if o.cond[1]:
+            return True, "constant"
+    elif prove_obligation(pdb, o.cond):
+        return True, "bound prover"
+    v = panic_node([o])
+    if v[0] == "c":
+        return (True, "unreachable") if not v[1] else (False, {})
+    # carry-free addition
+    c = o.cond
+    if c[0] == "un" and c[1] == "Not" and c[2][0] == "bin" and c[2][1] == "AddOvf":
+        try:
+            bv = BitVec(pdb)
+            xa, ya = bv.bv(c[2][2]), bv.bv(c[2][3])
+            ok = True
+            for xi, yi in zip(xa, ya):
+                if xi == 0 or yi == 0:
+                    continue
+                deps = sorted(b_deps(xi) | b_deps(yi))
+                if len(deps) > 10 or "top" in str(xi) + str(yi):
+                    ok = False
+                    break
+                for m in range(1 << len(deps)):
+                    asg = {d: (m >> j) & 1 for j, d in enumerate(deps)}
+                    if eval_bit(xi, asg) and eval_bit(yi, asg):
+                        ok = False
+                        break
+                if not ok:
+                    break
+            if ok:
+                return True, "operands of the addition are bitwise disjoint"
+        except Uncertified:
+            pass
+    # small support
+    try:
+        from .cards import result_deps
+        deps = sorted(result_deps(pdb, v))
+    except Uncertified:
+        deps = None
+    if deps is not None and len(deps) <= 20:
+        atoms_ = {}
+        for x in walk(v):
+            if x[0] == "atom":
+                atoms_[x[1]] = x[2]
+        if all(t in INT_BITS for t in atoms_.values()):
+            for m in range(1 << len(deps)):
+                env = dict(fixed_env)
+                for nm in atoms_:
+                    env.setdefault(nm, 0)
+                for j, (nm, bit) in enumerate(deps):
+                    if (m >> j) & 1:
+                        env[nm] = env.get(nm, 0) | (1 << bit)
+                try:
+                    if cval(evaluate(pdb, v, env)):
+                        return False, env
+                except (IndexError, ZeroDivisionError, KeyError):
+                    return False, env
+            ctx.rep.evals(1 << len(deps))
+            return True, "all %d assignments of the %d input bits the site depends on" % (1 << len(deps), len(deps))
+    # population count fixed by the path
+    for cj in flat_and(v, []):
+        if cj[0] == "bin" and cj[1] == "Eq":
+            for a_, b_ in ((cj[2], cj[3]), (cj[3], cj[2])):
+                if a_[0] == "call" and a_[1] == "count_ones" and a_[2][0][0] == "atom" and b_[0] == "c" and b_[1] in (1, 2):
+                    nm, ty = a_[2][0][1], a_[2][0][2]
+                    w = INT_BITS.get(ty)
+                    others = {x[1] for x in walk(v) if x[0] == "atom"} - {nm}
+                    if w is None or others - set(fixed_env):
+                        continue
+                    vals = [1 << i for i in range(w)] if b_[1] == 1 else [(1 << i) | (1 << j) for i in range(w) for j in range(i)]
+                    for val in vals:
+                        env = dict(fixed_env)
+                        env[nm] = val
+                        try:
+                            if cval(evaluate(pdb, v, env)):
+                                return False, env
+                        except (IndexError, ZeroDivisionError, KeyError):
+                            return False, env
+                    ctx.rep.evals(len(vals))
+                    return True, "the path fixes the population count of %s to %d: all %d such values" % (nm, b_[1], len(vals))
+    return None, "no exact decision procedure applies"
+
+
+def eval_bit(b, asg):
+    if b == 0 or b == 1:
+        return b
+    if b[0] == "b":
+        return asg[(b[1], b[2])]
+    if b[0] == "not":
+        return 1 - eval_bit(b[1], asg)
+    if b[0] == "and":
+        return 1 if all(eval_bit(y, asg) for y in b[1]) else 0
+    if b[0] == "or":
+        return 1 if any(eval_bit(y, asg) for y in b[1]) else 0
+    raise Uncertified("imprecise bit")
+
+
 def panic_free(ctx, rule, sm, envs, exhaustive, what=""):
     """Every panic site of the summary holds: shown by the bound prover for arbitrary inputs, or folded over `envs`
     (bindings of the summary's atoms).  exhaustive=True says envs cover the property's whole domain for this function
@@ -264,6 +381,15 @@ def panic_free(ctx, rule, sm, envs, exhaustive, what=""):
         where = "%s line %s" % (pdb.where(o.fn), o.line)
         if o.cond[0] != "c" and prove_obligation(pdb, o.cond):
             rep.ob(rule, inst, True)
+            continue
+        dec, how = decide_site(ctx, o)
+        if dec is True:
+            rep.ob(rule, inst, True)
+            continue
+        if dec is False and not exhaustive:
+            # (with exhaustive=True the bindings are the property's whole domain: a failure outside them is not one)
+            allok = False
+            rep.ob(rule, inst, False, "panic site (%s, line %s) in %s is reached and fails for %s" % (o.kind, o.line, short(o.fn), describe_env(how)), where)
             continue
         bad = None
         for env in envs:
